@@ -25,6 +25,7 @@ struct Config
   uint64_t stall_max_ns = 0;          // upper bound of one stall
   unsigned create_stall_permille = 0; // chance that a thread is descheduled (up to stall_max_ns) right after creating a thread
   unsigned spurious_ppm = 0;          // chance that a condition wait returns spuriously
+  bool atomic_points = false;         // TSan flavour: a scheduling point before every instrumented std::atomic operation
   bool wall_ms_aligned = false;       // CLOCK_REALTIME truncated to whole milliseconds
   uint64_t max_steps = 20000000;      // safety net: run is reported as 'livelock' beyond this
   uint64_t starve_bound = 20000;      // a runnable thread not chosen for this many decisions is forced
